@@ -9,7 +9,7 @@ from oracles.treecheck import Walk
 from vlib.core import Leg, Result, exc_failure, excluded_hazards
 
 ID = 'C12'
-RULE = ('cases: object reference = name x quoting (plain / "..." / `...`; quoted bodies over the full character set minus the quote and backslash, non-empty) x '
+RULE = ('cases: object reference = name x quoting (plain / "..." / `...`; quoted bodies over the full character set minus the quote and backslash, non-empty; backtick names also with doubled backticks at the start, inside, at the end) x '
         'optional qualifier (any quoting; written qualifier.name without blanks) x optional alias (with/without AS, any quoting) x drawn whitespace around AS, alias '
         'and commas x context (select list, FROM list, JOIN, UPDATE target, INSERT INTO target, select list / FROM list of a subquery that is aliased with or without AS, joined, or an IN operand, select list of a CTE body) x 0-3 neighbour items on either side; oracle: the '
         'tree contains an Identifier spanning exactly the written reference whose get_real_name/get_parent_name/get_alias/get_name/has_alias equal what was written, '
@@ -42,6 +42,9 @@ def name_part(draw, allow_dh=True):
         n = draw(st.one_of(st.sampled_from(G.BASE_NAMES), _plain(allow_dh)))
         return {'q': q, 'text': n, 'name': n}
     b = draw(_quoted_body())
+    if q == 'bt' and draw(st.integers(0, 3)) == 0:
+        # a doubled backtick stands for the character itself (the lexer rule says so): at the start, inside, at the end, twice in a row
+        b = draw(st.sampled_from(['``' + b, b + '``', b[:1] + '``' + b[1:], b[:1] + '````' + b[1:], '``', b + '````']))
     return {'q': q, 'text': ('"%s"' if q == 'dq' else '`%s`') % b, 'name': b}
 
 
